@@ -529,6 +529,12 @@ def comment_order(ctx, rid, core, G):
                         if not node or not (lead or trail):
                             continue
                         ok = len(lead) == 1 and len(node) == 1 and len(trail) == 1 and lead[0] < node[0] < trail[0]
+                        # a comment runs to the end of its line: whatever the loop emits after the trailing comment (a separator, a bracket)
+                        # on the same line becomes part of the comment's text
+                        if ok:
+                            after = [x for x in flat[trail[0] + 1:] if x[0] not in ("sp", "when", "case")]
+                            if after and after[0][0] in ("tok", "child", "ident"):
+                                ok = False
                         ctx.inst(rid, "%s#members(%s)[%d]" % (name.replace(CORE, ""), ".".join(it[1]), k), ok, "emission order inside the member loop: leading@%s node@%s trailing@%s" % (lead, node, trail), H.loc(f["body"]))
                         k += 1
 
